@@ -426,10 +426,14 @@ class ExprFormatted(Expr):
 
     value: str | Expr
     """Formatted value."""
+    conversion: str | None = None
+    """Conversion applied to the value (`r`, `s` or `a`), if any."""
 
     def iterate(self, *, flat: bool = True) -> Iterator[str | Expr]:
         yield "{"
         yield from _yield(self.value, flat=flat)
+        if self.conversion:
+            yield f"!{self.conversion}"
         yield "}"
 
 
@@ -1049,7 +1053,10 @@ def _build_formatted(
     in_formatted_str: bool = False,  # noqa: ARG001
     **kwargs: Any,
 ) -> Expr:
-    return ExprFormatted(_build(node.value, parent, in_formatted_str=True, **kwargs))
+    return ExprFormatted(
+        _build(node.value, parent, in_formatted_str=True, **kwargs),
+        conversion=chr(node.conversion) if node.conversion != -1 else None,
+    )
 
 
 def _build_generatorexp(node: ast.GeneratorExp, parent: Module | Class, **kwargs: Any) -> Expr:
